@@ -18,6 +18,8 @@ type Args struct {
 	Corpus string // directory with corpus cases (JSON), may be empty
 	Replay string // replay file: run exactly that case
 	Shard  int
+	Corr   string // Corr module name override (drivers shared by several properties)
+	Mode   string // driver-specific mode
 }
 
 func ParseArgs() Args {
@@ -29,6 +31,8 @@ func ParseArgs() Args {
 	flag.StringVar(&a.Corpus, "corpus", "", "corpus directory")
 	flag.StringVar(&a.Replay, "replay", "", "replay file")
 	flag.IntVar(&a.Shard, "shard", 1000, "cases per Coq shard")
+	flag.StringVar(&a.Corr, "corr", "", "Corr module name")
+	flag.StringVar(&a.Mode, "mode", "", "driver mode")
 	flag.Parse()
 	if a.Out == "" {
 		os.Stderr.WriteString("missing --out\n")
